@@ -3,7 +3,7 @@ CONFIG = {
     "theorems": [
         "C19.C19_ancillary_accept", "C19.C19_move_places_verified_file", "C19.C19_ancillary_sound",
         "C19.C19_ancillary_failure_clean", "C19.C19_tmp_removed", "C19.C19_immutable_dir_clean",
-        "C19.C19_foreign_entry_counterexample", "C19.C19_foreign_entry_kept", "C19.C19_range_bound_counterexample",
+        "C19.C19_foreign_entry_counterexample", "C19.C19_foreign_entry_kept", "C19.C19_range_bound_counterexample_before_repair", "C19.C19_range_bound_repaired", "C19.C19_next_trio_counterexample",
         "C19.C19_unexpected_name_removed", "C19.C19_kept_by_name_counterexample",
         "C19.C19_symlink_counterexample_prefix", "C19.C19_symlink_fixed", "C19.C19_symlink_counterexample_abstract",
         "C19.C19_honest_restore", "C19.C19_bad_signature_nothing_kept", "C19.C19_manifest_hash_note",
@@ -59,8 +59,8 @@ CONFIG = {
                     "no symbolic link of a case points above the case directory other than to a non-existent absolute path",
                     "the random download id in the name of the temporary directory is never guessed by an archive (the model calls it ancillary-TMP)"],
     "goals_not_proved": ["C19_immutable_only_goal is FALSE on the current tree (C19_foreign_entry_counterexample, "
-                         "C19_range_bound_counterexample, C19_kept_by_name_counterexample): known findings C19-foreign-entry, "
-                         "C19-trio-outside-range, C19-immutable-entry-kept-by-name",
+                         "C19_kept_by_name_counterexample): known findings C19-foreign-entry, "
+                         "C19-immutable-entry-kept-by-name, C19-next-trio-not-from-ancillary (C19-trio-outside-range was repaired by 3360edee4 up to that remainder)",
                          "the multi-entry read-through theorem (C19_ancillary_sound) is proved on the abstract move model, not on Restore.Full "
                          "(where parent directories may be links): per-step statements only",
                          "confinement of unpack to its destination (needed to turn C19_ancillary_failure_clean into 'nothing of the archive "
